@@ -36,6 +36,13 @@ def gen_func(rng, with_spaces):
     if rng.random() < 0.4:
         lines.append(f"    %l0 = memref.alloc() : {base}")
         vals.append(("%l0", base))
+    if with_spaces and rng.random() < 0.3:
+        # a constant buffer (no memory space assigned by anything): only ever read
+        rows = ", ".join("[" + ", ".join(str(r * 4 + c) for c in range(4)) + "]" for r in range(4))
+        lines.append(f"    %cst = arith.constant dense<[{rows}]> : {base}")
+        consts = [("%cst", base)]
+    else:
+        consts = []
     cast_id = [0]
 
     def make_cast(src, chain=1):
@@ -61,7 +68,7 @@ def gen_func(rng, with_spaces):
         pool = (casts * 2 + vals) if casts else vals
         if not pool:
             pool = casts
-        x, y, z = rng.choice(pool), rng.choice(pool), rng.choice(pool)
+        x, y, z = rng.choice(pool + consts), rng.choice(pool + consts * 2), rng.choice(pool)
         lines.append("  " * ind + f'linalg.generic {{indexing_maps = [{ID2}, {ID2}, {ID2}], iterator_types = ["parallel", "parallel"]}} '
                      f'ins({x[0]}, {y[0]} : {x[1]}, {y[1]}) outs({z[0]} : {z[1]}) attrs = {{tag = {tag[0]} : i32}} {{')
         lines.append("  " * ind + "^bb0(%x : i8, %y : i8, %z : i8):")
@@ -76,7 +83,9 @@ def gen_func(rng, with_spaces):
         else:
             generic(2)
     lines.append("    func.return")
-    return ("builtin.module {\n  func.func public @f(%a : " + base + ", %b : " + base + ", %c : " + base + ", %n : index) {\n" + "\n".join(lines) + "\n  }\n}\n")
+    # (a function that is not public keeps its arguments without a memory space: they still have to be moved next to the accelerator)
+    vis = "public " if not with_spaces or rng.random() < 0.8 else ""
+    return ("builtin.module {\n  func.func " + vis + "@f(%a : " + base + ", %b : " + base + ", %c : " + base + ", %n : index) {\n" + "\n".join(lines) + "\n  }\n}\n")
 
 
 DYNI = -9223372036854775808
